@@ -24,7 +24,7 @@ def one(seed: str):
         if p.returncode != 0:
             return seed, "patch-does-not-apply", p.stderr[-300:]
         env = dict(os.environ, DEP_LOGIC_REPO=str(wt))
-        p = subprocess.run(["./check", seed, "--tier", "quick"], cwd=ROOT, env=env, capture_output=True, text=True, timeout=3000)
+        p = subprocess.run(["./check", seed[:3], "--tier", "quick"], cwd=ROOT, env=env, capture_output=True, text=True, timeout=3000)
         v = [l for l in p.stdout.splitlines() if l.startswith("VIOLATION")]
         verdict = "caught" if (p.returncode == 1 and v and "no-failing-input-found" not in v[0]) else \
                   ("tie-only" if p.returncode == 1 else f"MISSED(rc={p.returncode})")
